@@ -158,6 +158,6 @@ LEVEL_TEXT = (
     "histories; after every command the complete visible set of every constructed/open context (all pool types) and the result of every "
     "lookup path are compared with the model by object identity. Held on the histories produced (sampled, both backends)."
 )
-LEVEL_NOTE = "Trusted: models/ctxtree.py (written from the statement), the actor harness. Tree depth <= 5, <= 12 open contexts, 9 types (classes, a subclass pair, a generic alias in two spellings, an Annotated alias) x 5 names (two of them differing only up to Unicode normalisation) in the random histories; parents with 64-300 resources / factories in the crowded cases."
+LEVEL_NOTE = "Trusted: models/ctxtree.py (written from the statement), the actor harness. Tree depth <= 5, <= 12 open contexts, 10 types (classes, a subclass pair, a generic alias in two spellings, an Annotated alias, a PEP 604 union object) x 5 names (two of them differing only up to Unicode normalisation) in the random histories; parents with 64-300 resources / factories in the crowded cases."
 TECHNIQUE = "lock-step reference model + whole-state comparison after every operation on real context trees"
 DESIGN_REF = "DESIGN.md section 3, C02"
